@@ -51,11 +51,10 @@ func (c18) Batches(tier string, seed uint64) []core.Batch {
 
 func (c18) Mandatory(tier string) []string {
 	m := []string{"reuse:version", "reuse:arch", "reuse:dependency", "reuse:result-aliasing", "conc:rounds", "conc:overlap>=2", "big:64KiB", "source:version", "source:dependency", "source:deb822", "source:typed", "source:changelog", "source:raw", "source:armored"}
+	// (which inputs an entry point accepts is not this property's business: the :ok / :error counts are evidence,
+	// what is required is that every entry point was driven)
 	for _, e := range c18Entries {
-		m = append(m, "entry:"+e.name+":ok")
-		if e.name != "dependency.ParseArch" && e.name != "dependency.ParseArchitectures" { // these accept every string
-			m = append(m, "entry:"+e.name+":error")
-		}
+		m = append(m, "entry:"+e.name+":called")
 	}
 	return m
 }
@@ -408,6 +407,7 @@ func (p c18) one(c *core.C, in []byte) {
 		if r1 != r2 {
 			c.Failf("%s gave different results on two calls with the same input:\n first:  %s\n second: %s", e.name, clip(r1, 300), clip(r2, 300))
 		}
+		c.Cover("entry:" + e.name + ":called")
 		if isErr {
 			errs++
 			c.Cover("entry:" + e.name + ":error")
